@@ -93,6 +93,42 @@ def _is_error_return(model, m, f, ret, facts):
     return False
 
 
+def _established_by_helper(model, m, f, var, chk, consts):
+    for st, val in sa.assignments_to(f, var):
+        if not (isinstance(val, ast.Call) and isinstance(val.func, (ast.Name, ast.Attribute))):
+            continue
+        r = model.resolve_attr_chain(m, val.func)
+        if r is None or r[0] != 'func' or not isinstance(r[2], ast.FunctionDef):
+            continue
+        gm, g = r[1], r[2]
+        pos = [i for i, a in enumerate(val.args) if isinstance(a, ast.Name) and a.id == var]
+        gps = sa.params(g)
+        if len(pos) != 1 or pos[0] >= len(gps):
+            continue
+        gvar = gps[pos[0]]
+        gconsts = guards.module_consts(gm, model)
+        exits = [x for x in walk_no_defs(g) if isinstance(x, ast.Return)]
+        value_exits = 0
+        good = True
+        for x in exits:
+            facts = guards.facts_at(gm, g, x, no_kill=(gvar,))
+            if _is_error_return(model, gm, g, x, facts):
+                continue
+            # the exit must hand back the parameter itself or its integer part
+            v = x.value
+            inner = v.args[0] if isinstance(v, ast.Call) and sa.call_name(v) in ('int', 'float', 'math.floor', 'math.trunc') and v.args else v
+            if not (isinstance(inner, ast.Name) and inner.id == gvar):
+                good = False
+                break
+            value_exits += 1
+            if not chk(guards.interval_of(facts, gvar, gconsts)):
+                good = False
+                break
+        if good and value_exits:
+            return True
+    return False
+
+
 _REACHED = {}
 
 
@@ -206,6 +242,12 @@ def _r2(model, res, singles):
                 # a return inside an exception handler for a failed parse is an error exit as well
                 iv = guards.interval_of(facts, var, consts)
                 ok = chk(iv)
+                if not ok:
+                    # the range test may live in a helper the argument is passed through:  number = _checked(number) ; every exit of
+                    # the helper that hands a number back (not an error) has established the range on its own parameter
+                    ok = _established_by_helper(model, m, f, var, chk, consts)
+                    if ok:
+                        iv = 'established by the helper the argument passes through'
                 n += 1
                 res.ob('R2', name, {'exit': 'return %s' % src(r.value)[:40] if r.value is not None else 'return', 'requires': desc, 'facts': repr(iv)}, ok)
                 if not ok:
